@@ -150,6 +150,8 @@ class Run(object):
                     else 'init:ioapi-grid')
             if init.get('disk'):
                 r.label('init:ioapi-disk')
+            r.label('init:ioapi-' + init.get('ctor', 'from_arrays'),
+                    'init:ioapi-tflag-' + str(init.get('tflag') or 'none'))
         else:
             r.label('init:' + init.get('route', 'create'))
             if not info.numeric:
